@@ -420,12 +420,14 @@ class Member:
     def attrs_value(self, env, tabs, tys):
         b = env.b
         by = {MapInstr: [], ChildInstr: [], ParentInstr: [], GhostInstr: [], GhostsInstr: [], 'literal': [], 'pattern': [], 'type_hint': []}
+        self._resolved = []
         for i in self.instrs:
             if hasattr(i, 'inner'):           # optional instruction selected by a forked choice
                 c, _ = env.pick(i.ch)
                 i = i.inner(c)
                 if i is None:
                     continue
+            self._resolved.append(i)
             if isinstance(i, SimpleInstr):
                 by[i.kind].append(i.value(env, tabs, tys))
             else:
